@@ -10,7 +10,8 @@
 From Coq Require Import String.
 From Coq Require Import List Ascii ZArith Bool.
 From CGV Require Import Base.PyBase Base.PyVal Base.PyGen Sample.GenSupport Gen.SamplerGen Sample.SampleImpl
-     Sample.SampleDefs Sample.SampleSpec Sample.SampleProofs Sample.SampleTree Sample.SampleAccount Sample.SampleExample.
+     Sample.SampleDefs Sample.SampleSpec Sample.SampleProofs Sample.SampleTree Sample.SampleFragid Sample.SampleAccount
+     Sample.SampleValid Sample.SampleExample.
 Import ListNotations.
 Open Scope Z_scope.
 
@@ -70,6 +71,30 @@ Section C16.
                      | None => True end) (bond_edges m).
   Proof. exact (tree_of_fragments M c0 madd mltb misz R pick cfg Wf Tc). Qed.
 
+  (** tree_of_fragments, with the inter-fragment bonds and the copies DEFINED BY MEMBERSHIP
+      ('fragid'): the number of distinct fragids is 1 + the number of steps, the edges whose end
+      points have different fragid are exactly the edges created by add_fragment, their number is
+      the number of copies minus one; node keys are 0..n-1 in insertion order (so that
+      sort_nodes_by_attr has nothing to move before the hydrogens are added) *)
+  Theorem C16_tree_of_fragments_membership : forall target fuel rng start nm i0 m cw log rng',
+    sample_growth M c0 madd mltb misz R pick cfg target fuel rng start = Ok (nm, i0, m, cw, log, rng') ->
+    frag_count m = Datatypes.S (length log) /\ inter_bonds m = bond_edges m /\
+    (length (inter_bonds m) + 1 = frag_count m)%nat /\
+    map n_key (m_nodes m) = zseq 0 (length (m_nodes m)).
+  Proof. exact (tree_of_fragments_membership M c0 madd mltb misz R pick cfg Wf). Qed.
+
+  (** valid_draw: a successful random choice consumed an index in range whose weight (under
+      random.choices) is not zero, and returned the element at that index; conversely a valid draw
+      never fails *)
+  Theorem C16_choice_valid_draw : forall (A : Type) rng (l : list A) w x i rng',
+    choose M misz R pick rng l w = Ok (x, i, rng') -> valid_draw M misz l w i = true /\ nth_error l i = Some x.
+  Proof. intros A. exact (choose_ok_valid M misz R pick). Qed.
+  Theorem C16_valid_draw_accepted : forall (A : Type) rng (l : list A) w i rng',
+    pick rng (length l) w = Ok (i, rng') -> valid_draw M misz l w i = true -> l <> [] ->
+    (forall ws, w = Some ws -> forallb misz ws = false) ->
+    exists x, choose M misz R pick rng l w = Ok (x, i, rng').
+  Proof. intros A. exact (valid_draw_choose M misz R pick). Qed.
+
   (** descriptor_once: per node and descriptor, occurrences still on the node plus occurrences
       consumed by bonds never increase along a step for old nodes, and start at what the template
       wrote for the nodes of the new copy: no written descriptor is used twice *)
@@ -83,7 +108,7 @@ End C16.
 Example C16_nonvacuous :
   wf_frags ex_frags /\ Forall (fun ft => tpl_connected (snd ft)) ex_frags /\
   exists cfg nm i0 m cw log r, ex_cfg = Ok cfg /\ ex_run = Ok (nm, i0, m, cw, log, r) /\ length log = 6%nat /\
-    length (m_nodes m) = 11%nat.
+    length (m_nodes m) = 11%nat /\ frag_count m = 7%nat /\ length (inter_bonds m) = 6%nat.
 Proof.
   split; [|split].
   - repeat constructor; cbn; try (intros [H|H]; try discriminate; try contradiction); try tauto; try discriminate;
@@ -92,12 +117,15 @@ Proof.
     + destruct Ha as [<-|[<-|[]]], Hb as [<-|[<-|[]]]; try constructor;
         (eapply path_step; [|constructor]); cbn; tauto.
     + destruct Ha as [<-|[]], Hb as [<-|[]]. constructor.
-  - do 7 eexists. split; [vm_compute; reflexivity|]. split; [vm_compute; reflexivity|]. split; reflexivity.
+  - do 7 eexists. split; [vm_compute; reflexivity|]. split; [vm_compute; reflexivity|]. split; [reflexivity|]. split; [reflexivity|]. split; vm_compute; reflexivity.
 Qed.
 
 Print Assumptions C16_complement_lookup_sound.
 Print Assumptions C16_bond_complementary.
 Print Assumptions C16_step_adds_one_fragment_one_bond.
 Print Assumptions C16_tree_of_fragments.
+Print Assumptions C16_tree_of_fragments_membership.
+Print Assumptions C16_choice_valid_draw.
+Print Assumptions C16_valid_draw_accepted.
 Print Assumptions C16_descriptor_once.
 Print Assumptions C16_nonvacuous.
